@@ -122,7 +122,8 @@ func runHistoryCase(c Case) Result {
 		fresh, _ := jsonata.Compile(c.Expr)
 		want := evalOutcome(fresh, deepCopyJSON(in))
 		r.Hist = append(r.Hist, got.wire)
-		same := got.wire == want.wire || usesVolatile(c.Expr)
+		same := got.wire == want.wire || usesVolatile(c.Expr) ||
+			(usesUnordered(c.Expr) && canonUnordered(got.wire) == canonUnordered(want.wire))
 		if !same && len(got.wire) > 5 && len(want.wire) > 5 && got.wire[:5] == "E lib" && want.wire[:5] == "E lib" {
 			same = true
 		}
